@@ -60,6 +60,8 @@ def bootstrap():
     import encodings.utf_8, encodings.ascii, encodings.latin_1  # noqa
     import yaml  # noqa
     _bootstrapped = True
+    from . import sched
+    sched.preinstrument()
     return ay
 
 
